@@ -115,7 +115,8 @@ class FortranRegularExpressions:
         r"(?<![\w.$])(?:\d+\.?\d*|\.\d+)(?:[ed][+-]?\d+)?_([a-z]\w*)", I
     )
     LOGICAL: Pattern = compile(r"\.true\.|\.false\.", I)
-    SUB_PAREN: Pattern = compile(r"\([\w, ]*\)", I)
+    # (an alternate return is written "*" in the dummy argument list)
+    SUB_PAREN: Pattern = compile(r"\([\w, *]*\)", I)
     # KIND_SPEC_MATCH: Pattern = compile(r"\([\w, =*]*\)", I)
 
     SQ_STRING: Pattern = compile(r"\'[^\']*\'", I)
